@@ -65,14 +65,15 @@ func main() {
 	rng := hlib.NewRng(f.Seed)
 	rep := hlib.NewReport("C19", "real core.TxPool over a mock chain; sequential histories of 6-25 operations (add batches with same-nonce replacements at the bump boundary, "+
 		"SetGasPrice, head events incl. reorganisations that re-inject, refused transactions) over 2-4 accounts, every quiescent snapshot compared with the Coq model and checked by the invariant monitors; "+
-		"plus concurrent, size-limit and lifetime-eviction histories checked by the monitors only. Non-trivial = some snapshot has an account with both pending and queued transactions; distinct by operation/verdict/shape trace")
+		"plus concurrent, size-limit and lifetime-eviction histories checked by the monitors only; plus stand-alone txLists (Add with cost/gas-raising replacements, Filter at the boundaries of the content and of the cached thresholds, Forward/Remove/Cap/Ready) compared with the cached-list model after every operation. Non-trivial = some snapshot has an account with both pending and queued transactions (list cases: some Filter removed a transaction); distinct by operation/verdict/shape trace")
 	cw := hlib.NewCaseWriter(f.Out, coqHeader, "C19.case", 25)
 	w := newWorld(4)
 
 	emit := func(c *Case) {
 		rep.Evaluations++
 		rep.Count("kind:" + c.Kind)
-		for _, op := range c.Ops {
+		for i := range c.Ops {
+			op := c.Ops[i]
 			rep.Count("op:" + op.K)
 			for _, v := range op.Verdicts {
 				rep.Count("verdict:" + verdictCoq[v])
@@ -89,6 +90,9 @@ func main() {
 			rep.Nontrivial(fp)
 		}
 		switch c.Kind {
+		case "list":
+			cw.Add(c.coqList(), c)
+			rep.TracesValidated++
 		case "seq":
 			cw.Add(c.coqSeq(), c)
 			rep.TracesValidated++
@@ -114,7 +118,7 @@ func main() {
 		// decorrelate the streams of consecutive seeds (hlib.NewRng(s+1) is NewRng(s) advanced once)
 		rng = hlib.NewRng(mix(f.Seed))
 		id := 0
-		for _, c := range corpus() {
+		for _, c := range append(corpus(), listCorpus()...) {
 			c.ID = id
 			id++
 			if stalls.Load() < maxStalls {
@@ -122,7 +126,7 @@ func main() {
 			}
 		}
 		nseq := f.N
-		nconc, nlimit, nevict, nlin := f.N/6, f.N/8, 3, f.N/10
+		nconc, nlimit, nevict, nlin, nlist := f.N/6, f.N/8, 3, f.N/10, f.N/3
 		if f.Tier == "thorough" {
 			nevict = 12
 		}
@@ -144,6 +148,10 @@ func main() {
 		}
 		for i := 0; i < nevict && stalls.Load() < maxStalls; i++ {
 			emit(genEvictCase(rng.Fork(), w, id, rep))
+			id++
+		}
+		for i := 0; i < nlist; i++ {
+			emit(genListCase(rng.Fork(), w, id, rep))
 			id++
 		}
 		if stalls.Load() >= maxStalls {
@@ -170,6 +178,8 @@ func replayCase(w *world, c *Case, rep *hlib.Report) *Case {
 		return c
 	case "evict":
 		return runEvict(nil, w, c, rep)
+	case "list":
+		return replayList(w, c, rep)
 	default:
 		return replaySeq(w, c, rep)
 	}
